@@ -365,7 +365,27 @@ class Interp:
         if isinstance(e, ast.Constant):
             return e.value
         if isinstance(e, ast.JoinedStr):
-            return "<fstring>"
+            # built when every part is a literal or an int / str value with a literal format (`f"padding_{npad}_"`); text that
+            # involves anything else (objects, reprs) is outside the model and stays opaque
+            parts = []
+            for v in e.values:
+                if isinstance(v, ast.Constant) and isinstance(v.value, str):
+                    parts.append(v.value)
+                    continue
+                if isinstance(v, ast.FormattedValue) and v.conversion == -1 and (v.format_spec is None or (len(v.format_spec.values) == 1 and isinstance(v.format_spec.values[0], ast.Constant))) \
+                        and isinstance(v.value, (ast.Name, ast.Constant)):
+                    try:
+                        val = self.eval(v.value, env)
+                    except AnalysisError:
+                        return "<fstring>"
+                    if isinstance(val, (int, str)) and not isinstance(val, bool):
+                        try:
+                            parts.append(format(val, v.format_spec.values[0].value if v.format_spec is not None else ""))
+                            continue
+                        except (ValueError, TypeError):
+                            pass
+                return "<fstring>"
+            return "".join(parts)
         if isinstance(e, ast.Name):
             if e.id in env:
                 return env[e.id]
